@@ -39,6 +39,15 @@ def vals_grid(rng):
     return rng.choice([N(0), N(1), N(2), N(3), N(-1), N(1, 2), N(3, 2), N(-5, 2), N(1, 4), N(7), N(10)])
 
 
+def has_fluent(tree):
+    if tree["t"] != "l":
+        return False
+    h = tree["c"][0]
+    if h["t"] == "s" and h["v"] in FUNCS:
+        return True
+    return any(has_fluent(c) for c in tree["c"])
+
+
 class Gen:
     def __init__(self, rng, params, with_forall=True, with_numeric=True, with_consts=True):
         self.rng = rng
@@ -101,8 +110,20 @@ class Gen:
 
     def cmp(self, extra=()):
         rng = self.rng
-        return L(S(rng.choice(["<", "<=", "=", ">=", ">"])), self.expr(rng.choice([0, 1, 1, 2]), extra),
-                 self.expr(rng.choice([0, 0, 1]), extra))
+        left, right = self.expr(rng.choice([0, 1, 1, 2]), extra), self.expr(rng.choice([0, 0, 1]), extra)
+        if not has_fluent(left) and not has_fluent(right):  # comparisons of constants are not in the fragment
+            left = self.fluent(extra)
+        op = rng.choice(["<", "<=", "=", ">=", ">"])
+        if op == "=":
+            # equalities are hashed through the symbolic simplifier when nested; one that simplifies
+            # to a constant truth value (x - x = 1, 0 * x = c) is outside what it can print
+            left = self.fluent(extra)
+            right = vals_grid(rng) if rng.random() < 0.7 else self.fluent(extra)
+            if right == left:
+                right = vals_grid(rng)
+        if rng.random() < 0.3:
+            left, right = right, left
+        return L(S(op), left, right)
 
     def lit(self, extra=()):
         rng = self.rng
@@ -255,6 +276,42 @@ PARAM_SETS = [
 ]
 
 
+def fluent_terms(tree, acc, q=()):
+    """argument lists of all fluent terms (f a b), each with the quantified variables in
+    scope: [([args], {var: type})]"""
+    if tree["t"] != "l" or not tree["c"]:
+        return acc
+    head = tree["c"][0]
+    if head["t"] == "s" and head["v"] in FUNCS and all(c["t"] == "s" for c in tree["c"]):
+        acc.append(([c["v"] for c in tree["c"][1:]], dict(q)))
+    if head["t"] == "s" and head["v"] in ("forall", "exists") and len(tree["c"]) == 3:
+        b = tree["c"][1]["c"]
+        q = tuple(q) + ((b[0]["v"], b[2]["v"]),)
+    for c in tree["c"]:
+        fluent_terms(c, acc, q)
+    return acc
+
+
+def repeats_fluent_arg(terms, params, args, objs):
+    """can grounding put the same object twice into one fluent term?"""
+    env = {p: a for (p, _), a in zip(params, args)}
+    ty = dict(objs)
+    ty.update(dict(CONSTS))
+    for t, q in terms:
+        fixed = [env.get(x, x) for x in t if x not in q]
+        if len(set(fixed)) != len(fixed):
+            return True
+        qv = [x for x in t if x in q]
+        if len(set(qv)) != len(qv):
+            return True
+        for v in qv:
+            if any(subtype(ty[o], q[v]) for o in fixed if o in ty):
+                return True
+        if len(qv) >= 2:
+            return True
+    return False
+
+
 def gen_case(seed, cid, n_states=4, n_calls=3, **kw):
     rng = random.Random(seed * 1000003 + cid)
     params = rng.choice(PARAM_SETS)
@@ -263,7 +320,12 @@ def gen_case(seed, cid, n_states=4, n_calls=3, **kw):
     objs = list(OBJS) if rng.random() < 0.7 else OBJS[:3]
     states = [random_state(rng, objs) for _ in range(n_states)]
     calls = []
-    for args in calls_for(rng, params, objs, n_calls):
+    terms = fluent_terms(tree["c"][-1], [])
+    for args in calls_for(rng, params, objs, n_calls * 2):
+        # grounding a fluent onto a repeated object is a known finding of its own
+        # (RepeatedFluentArg, exercised by dedicated cases), not mixed into these
+        if repeats_fluent_arg(terms, params, args, objs) or len([c for c in calls if c["s"] == 0]) >= 2 * n_calls:
+            continue
         for si in range(n_states):
             calls.append({"act": "act", "args": args, "s": si, "mode": "app"})
             r = rng.random()
